@@ -23,10 +23,19 @@ Gen/CallbackSkeleton.v (translate/callback_skeleton.py); this file adds the DATA
                                                    a publication on 'run_info'
   nextline/fsm/callback.py                         every method of Callback (events, tasks, hooks, triggers by NAME)
 
-NOT TRACKED (dropped): docstrings, `pass`, `logger = getLogger(..)`, `logger.xxx(..)`, type annotations, the time stamps
-(dataclass fields / keyword arguments TS_FIELDS, assignments to the local names TS_LOCALS, asserts on `.tzinfo`,
-`__post_init__` statements that mention only time-stamp fields), and in RunSession.run the statements that mention none of
-the tracked context attributes and contain no await / yield / control transfer.
+IGNORED POSITIONS (shared rule of harness/HARDEN_TASK.md): docstrings, `pass`, bare annotations, `logger = getLogger(..)`
+and `logger.<level>(..)` / `self._logger.<level>(..)` whose arguments contain no call, walrus, await or yield.  NOTHING else
+is ignored inside a translated function: asserts are translated (they raise), so are the time stamps
+(`datetime.now(timezone.utc)`, `.replace(tzinfo=None)`, `.tzinfo is timezone.utc`, `_assert_aware_datetime`,
+`is_timezone_aware` -- the latter pinned to its one-line body).  In RunSession.run the statements that mention none of
+context.run_arg / running_process / exited_process must be one of the six statements UNTRACKED_SESSION (a pin of their text;
+the same statements are pinned by translate/callback_skeleton.py).
+Fail closed also on: class bases / class decorators / method decorators other than the expected ones, class-level statements
+other than annotations, docstrings and defs, special methods that are not translated, default argument values, module-level
+statements that rebind or monkeypatch anything (only imports, defs, docstrings, `if TYPE_CHECKING:` imports and assignments
+of call-free values / TypeVar / NewType / the tracked dict to fresh names), imports of the names the translation relies on
+from other places than expected, local rebinding of those names, sibling methods that store to a tracked attribute, and any
+store to context.run_arg / running_process / exited_process anywhere in nextline/ outside Callback and RunSession.run.
 
 Everything else raises RecordError (= a broken tie obligation of ./check C02).
 """
@@ -49,8 +58,9 @@ SRC_SPEC = 'nextline/plugin/spec.py'
 SRC_CALLBACK = 'nextline/fsm/callback.py'
 PLUGINS_DIR = 'nextline/plugin/plugins'
 
-TS_FIELDS = {'started_at', 'ended_at', 'process_created_at', 'process_exited_at'}
-TS_LOCALS = {'started_at', 'ended_at'}
+SRC_UTC = 'nextline/utils/utc.py'
+SRC_UTILS = 'nextline/utils/__init__.py'
+SRC_SPAWNED = 'nextline/spawned/__init__.py'
 TRACKED_CTX = {'run_arg', 'running_process', 'exited_process'}
 API = ('format_exception', 'result')
 
@@ -105,18 +115,144 @@ def idents(node) -> set[str]:
     return out
 
 
+EFFECTFUL = (ast.Call, ast.NamedExpr, ast.Await, ast.Yield, ast.YieldFrom, ast.Lambda, ast.ListComp, ast.SetComp,
+             ast.DictComp, ast.GeneratorExp)
+
+
+def pure(node) -> bool:
+    """no call, walrus, await, yield (an attribute read of a live object is taken not to raise)"""
+    return not any(isinstance(n, EFFECTFUL) for n in ast.walk(node))
+
+
 def is_logging(st) -> bool:
-    if has_control(st) or any(isinstance(n, ast.NamedExpr) for n in ast.walk(st)):
-        return False
+    """`logger.<level>(args)` / `self._logger.<level>(args)` / `logger = getLogger(args)` with call-free args"""
     if isinstance(st, ast.Expr) and isinstance(st.value, ast.Call):
-        f = st.value.func
-        if isinstance(f, ast.Attribute) and isinstance(f.value, ast.Name) and f.value.id == 'logger':
-            return True
-        return (isinstance(f, ast.Attribute) and isinstance(f.value, ast.Attribute) and f.value.attr == '_logger'
-                and isinstance(f.value.value, ast.Name) and f.value.value.id == 'self')
+        c = st.value
+        f = c.func
+        ok = isinstance(f, ast.Attribute) and f.attr in ('debug', 'info', 'warning', 'error', 'exception', 'critical') and (
+            (isinstance(f.value, ast.Name) and f.value.id == 'logger')
+            or (isinstance(f.value, ast.Attribute) and f.value.attr == '_logger' and isinstance(f.value.value, ast.Name)
+                and f.value.value.id == 'self'))
+        return ok and all(pure(a) for a in c.args) and all(pure(k.value) for k in c.keywords)
     if isinstance(st, ast.Assign) and len(st.targets) == 1 and isinstance(st.targets[0], ast.Name) and st.targets[0].id == 'logger':
-        return isinstance(st.value, ast.Call) and isinstance(st.value.func, ast.Name) and st.value.func.id == 'getLogger'
+        c = st.value
+        return (isinstance(c, ast.Call) and isinstance(c.func, ast.Name) and c.func.id == 'getLogger'
+                and all(pure(a) for a in c.args) and not c.keywords)
     return False
+
+
+SPECIAL_REFUSED = {'__aenter__', '__aexit__', '__enter__', '__exit__', '__bool__', '__len__', '__eq__', '__ne__', '__hash__',
+                   '__getattr__', '__getattribute__', '__setattr__', '__delattr__', '__new__', '__del__', '__init_subclass__',
+                   '__class_getitem__', '__get__', '__set__', '__call__', '__iter__', '__aiter__', '__contains__', '__getitem__'}
+
+
+def check_class(cls: ast.ClassDef, bases: list[str], decorators: list[list[str]], special_ok=(), allow_init=True):
+    """bases and decorators as expected; the body holds only annotations, docstrings, `pass` and defs; no special method
+    changes what attribute access, truth value, equality or `with` mean"""
+    if [norm(b) for b in cls.bases] != bases or cls.keywords:
+        raise RecordError(f'class {cls.name}: bases {[norm(b) for b in cls.bases]}, expected {bases}')
+    if [norm(d) for d in cls.decorator_list] not in decorators:
+        raise RecordError(f'class {cls.name}: decorators {[norm(d) for d in cls.decorator_list]}')
+    seen = set()
+    for b in cls.body:
+        if isinstance(b, (ast.FunctionDef, ast.AsyncFunctionDef)):
+            if b.name in seen:
+                raise RecordError(f'class {cls.name}: `{b.name}` defined twice')
+            seen.add(b.name)
+            if b.name in SPECIAL_REFUSED and b.name not in special_ok:
+                raise RecordError(f'class {cls.name} defines {b.name}')
+            if b.name == '__init__' and not allow_init:
+                raise RecordError(f'class {cls.name} defines __init__')
+        elif isinstance(b, ast.AnnAssign) and isinstance(b.target, ast.Name):
+            continue
+        elif isinstance(b, ast.Pass) or (isinstance(b, ast.Expr) and isinstance(b.value, ast.Constant) and isinstance(b.value.value, str)):
+            continue
+        else:
+            raise RecordError(f'class {cls.name}:{b.lineno}: class-level statement `{norm(b).splitlines()[0]}`')
+
+
+def imports_of(tree: ast.Module) -> dict:
+    """top-level `import a` / `from m import a [as b]` -> {bound name: (module, original name)}"""
+    out = {}
+    for st in tree.body:
+        if isinstance(st, ast.Import):
+            for a in st.names:
+                out[a.asname or a.name.split('.')[0]] = ('', a.name)
+        elif isinstance(st, ast.ImportFrom):
+            for a in st.names:
+                out[a.asname or a.name] = ('.' * st.level + (st.module or ''), a.name)
+    return out
+
+
+def check_module(tree: ast.Module, rel: str, expect: dict, own_dicts=()):
+    """only imports, defs, docstrings, `if TYPE_CHECKING:` imports and assignments of harmless values to FRESH names;
+    the names the translation relies on are imported from where it expects"""
+    defs = [n.name for n in tree.body if isinstance(n, (ast.ClassDef, ast.FunctionDef, ast.AsyncFunctionDef))]
+    for d in defs:
+        if defs.count(d) > 1:
+            raise RecordError(f'{rel}: `{d}` defined twice')
+    imps = imports_of(tree)
+    for name, origin in expect.items():
+        if imps.get(name) != origin:
+            raise RecordError(f'{rel}: `{name}` is {imps.get(name)}, expected an import {origin}')
+    bound = set(defs)
+    for st in tree.body:
+        w = f'{rel}:{st.lineno}'
+        if isinstance(st, (ast.Import, ast.ImportFrom)):
+            for a in st.names:
+                nm = a.asname or a.name.split('.')[0]
+                if nm in defs:
+                    raise RecordError(f'{w}: import rebinds `{nm}`')
+            continue
+        if isinstance(st, (ast.ClassDef, ast.FunctionDef, ast.AsyncFunctionDef)):
+            continue
+        if isinstance(st, ast.Expr) and isinstance(st.value, ast.Constant) and isinstance(st.value.value, str):
+            continue
+        if isinstance(st, ast.If) and norm(st.test) == 'TYPE_CHECKING' and not st.orelse \
+                and all(isinstance(x, (ast.Import, ast.ImportFrom)) for x in st.body):
+            for x in st.body:
+                for a in x.names:
+                    if (a.asname or a.name.split('.')[0]) in defs or (a.asname or a.name) in expect:
+                        raise RecordError(f'{w}: TYPE_CHECKING import rebinds a tracked name')
+            continue
+        if isinstance(st, (ast.Assign, ast.AnnAssign)):
+            targets = st.targets if isinstance(st, ast.Assign) else [st.target]
+            for t in targets:
+                if not isinstance(t, ast.Name):
+                    raise RecordError(f'{w}: module-level store to `{norm(t)}`')
+                if t.id in defs or t.id in expect or t.id in bound and t.id not in ('__all__',):
+                    raise RecordError(f'{w}: module-level rebinding of `{t.id}`')
+                bound.add(t.id)
+            v = st.value
+            if v is None:
+                continue
+            if isinstance(v, ast.Call) and isinstance(v.func, ast.Name) and v.func.id in ('TypeVar', 'NewType') and all(pure(a) for a in v.args):
+                continue
+            if isinstance(st, ast.Assign) and len(targets) == 1 and targets[0].id in own_dicts:
+                continue
+            if not pure(v):
+                raise RecordError(f'{w}: module-level assignment with a call: `{norm(st).splitlines()[0]}`')
+            continue
+        raise RecordError(f'{w}: module-level statement `{norm(st).splitlines()[0]}`')
+
+
+def local_bindings(fn) -> set[str]:
+    out = {a.arg for a in fn.args.args + fn.args.kwonlyargs + fn.args.posonlyargs}
+    for n in ast.walk(fn):
+        if isinstance(n, ast.Name) and isinstance(n.ctx, (ast.Store, ast.Del)):
+            out.add(n.id)
+        elif isinstance(n, (ast.Global, ast.Nonlocal)):
+            out |= set(n.names)
+        elif isinstance(n, (ast.FunctionDef, ast.AsyncFunctionDef, ast.ClassDef)) and n is not fn:
+            out.add(n.name)
+        elif isinstance(n, (ast.Import, ast.ImportFrom)):
+            out |= {a.asname or a.name.split('.')[0] for a in n.names}
+    return out
+
+
+def check_decorators(fn, expected: list[str], w):
+    if [norm(d) for d in fn.decorator_list] != expected:
+        raise RecordError(f'{w}.{fn.name}: decorators {[norm(d) for d in fn.decorator_list]}, expected {expected}')
 
 
 def find(body, kind, name, what=''):
@@ -137,6 +273,10 @@ def is_hookimpl(fn) -> bool:
     return any(norm(d).split('(')[0] == 'hookimpl' for d in fn.decorator_list)
 
 
+def is_plain_hookimpl(fn) -> bool:
+    return [norm(d) for d in fn.decorator_list] == ['hookimpl']
+
+
 def attr_path(node) -> list[str] | None:
     """`a.b.c` -> ['a', 'b', 'c'] (rooted at a Name)"""
     out = []
@@ -155,11 +295,22 @@ class Tr:
     """Translation environment: names of the dataclasses, of the methods of the translated classes and of the
     module-level dicts / coroutine functions that may be referred to."""
 
-    def __init__(self, classes: set[str], methods: set[str], dicts: set[str], funcs: set[str]):
+    def __init__(self, classes: set[str], methods: set[str], dicts: set[str], funcs: set[str], plain_funcs: set[str]):
         self.classes = classes
         self.methods = methods
         self.dicts = dicts
-        self.funcs = funcs
+        self.funcs = funcs              # awaited coroutine functions
+        self.plain_funcs = plain_funcs  # plain functions
+
+    def reserved(self) -> set[str]:
+        return (self.classes | self.dicts | self.funcs | self.plain_funcs
+                | {'json', 'dataclasses', 'traceback', 'datetime', 'timezone', 'isinstance', 'type', 'str', 'repr', 'events',
+                   'spawned', 'types', 'partial', 'run_in_process', 'is_timezone_aware', 'getLogger', 'asyncio', 'ValueError'})
+
+    def check_locals(self, fn, w):
+        bad = local_bindings(fn) & self.reserved()
+        if bad:
+            raise RecordError(f'{w}: rebinds {sorted(bad)} locally')
 
     # ---- expressions
     def kw(self, keywords, w) -> str:
@@ -167,10 +318,6 @@ class Tr:
         for k in keywords:
             if k.arg is None:
                 raise RecordError(f'{w}: **kwargs')
-            if k.arg in TS_FIELDS:
-                if has_control(k.value):
-                    raise RecordError(f'{w}: time stamp `{k.arg}` computed with an await')
-                continue
             out.append(f'({cs(k.arg)}, {self.exp(k.value, w)})')
         return cl(out)
 
@@ -200,6 +347,9 @@ class Tr:
             return acc
         if isinstance(e, ast.UnaryOp) and isinstance(e.op, ast.Not):
             return f'(ENot {self.exp(e.operand, w)})'
+        if isinstance(e, ast.Compare) and len(e.ops) == 1 and isinstance(e.ops[0], ast.Is) \
+                and norm(e.comparators[0]) == 'timezone.utc' and isinstance(e.left, ast.Attribute) and e.left.attr == 'tzinfo':
+            return f'(EIsUtc {self.exp(e.left.value, w)})'
         if isinstance(e, ast.Compare) and len(e.ops) == 1 and isinstance(e.comparators[0], ast.Constant) \
                 and e.comparators[0].value is None and isinstance(e.ops[0], (ast.Is, ast.IsNot)):
             return f'({"EIsNone" if isinstance(e.ops[0], ast.Is) else "EIsNotNone"} {self.exp(e.left, w)})'
@@ -270,8 +420,19 @@ class Tr:
             raise RecordError(f'{w}: `{norm(e)}`')
         if fname == 'datetime.now':
             if [norm(a) for a in e.args] == ['timezone.utc'] and not e.keywords:
-                return f'(ETotal {cs("datetime.now")} [])'
+                return 'ENowUtc'
             raise RecordError(f'{w}: datetime.now shape')
+        if isinstance(f, ast.Attribute) and f.attr == 'replace' and not e.args \
+                and [(k.arg, norm(k.value)) for k in e.keywords] == [('tzinfo', 'None')]:
+            return f'(ENaive {self.exp(f.value, w)})'
+        if fname == 'is_timezone_aware':
+            if len(e.args) != 1 or e.keywords:
+                raise RecordError(f'{w}: is_timezone_aware shape')
+            return f'(EIsAware {self.exp(e.args[0], w)})'
+        if isinstance(f, ast.Name) and f.id in self.plain_funcs:
+            if e.keywords:
+                raise RecordError(f'{w}: keyword arguments to {f.id}')
+            return f'(ECallFn {cs(f.id)} {cl([self.exp(a, w) for a in e.args])})'
         if isinstance(f, ast.Attribute) and f.attr == 'strftime':
             if len(e.args) == 1 and isinstance(e.args[0], ast.Constant) and isinstance(e.args[0].value, str):
                 return f'(ETotal {cs("strftime")} [{self.exp(f.value, w)}])'
@@ -295,16 +456,6 @@ class Tr:
         raise RecordError(f'{w}: call `{norm(e)}` not recognised')
 
     # ---- statements
-    def is_timestamp(self, st) -> bool:
-        if has_control(st):
-            return False
-        if isinstance(st, ast.Assign) and len(st.targets) == 1 and isinstance(st.targets[0], ast.Name) \
-                and st.targets[0].id in TS_LOCALS:
-            return True
-        if isinstance(st, ast.Assert) and 'tzinfo' in idents(st.test) and not any(isinstance(n, ast.Call) for n in ast.walk(st.test)):
-            return True
-        return False
-
     def target(self, t, w) -> str:
         p = attr_path(t)
         if p is None:
@@ -313,14 +464,22 @@ class Tr:
 
     def stmt(self, st, w0) -> str | None:
         w = at(w0, st)
-        if isinstance(st, ast.Pass) or is_logging(st) or self.is_timestamp(st):
+        if isinstance(st, ast.Pass) or is_logging(st):
             return None
         if isinstance(st, ast.Expr) and isinstance(st.value, ast.Constant) and isinstance(st.value.value, str):
             return None
+        if isinstance(st, ast.Raise):
+            c = st.exc
+            if st.cause is None and isinstance(c, ast.Call) and isinstance(c.func, ast.Name) and c.func.id == 'ValueError' \
+                    and all(pure(a) for a in c.args) and not c.keywords:
+                return 'SRaise'
+            raise RecordError(f'{w}: `{norm(st)}`')
         if isinstance(st, ast.Assign):
             if len(st.targets) != 1:
                 raise RecordError(f'{w}: chained assignment')
             t = st.targets[0]
+            if isinstance(t, ast.Name) and t.id == 'logger':
+                raise RecordError(f'{w}: `logger` bound to something other than getLogger(<call-free>)')
             if isinstance(t, ast.Tuple):
                 if not all(isinstance(x, ast.Name) for x in t.elts):
                     raise RecordError(f'{w}: unpacking target')
@@ -364,14 +523,11 @@ class Tr:
 
 def dataclass_def(tr: Tr, cls: ast.ClassDef, w) -> tuple[str, list]:
     """-> (Coq classdef, its methods [(name, args, body ast)])"""
-    if not any('dataclass' in norm(d) for d in cls.decorator_list):
-        raise RecordError(f'{w}: {cls.name} is not a dataclass')
+    frozen = any('frozen=True' in norm(d).replace(' ', '') for d in cls.decorator_list)
     fields, initvars, noinit, methods = [], [], [], []
     for b in strip_doc(cls.body):
         if isinstance(b, ast.AnnAssign) and isinstance(b.target, ast.Name):
             name = b.target.id
-            if name in TS_FIELDS:
-                continue
             ann = norm(b.annotation)
             if ann.startswith('InitVar['):
                 initvars.append(f'({cs(name)}, {copt(tr.exp(b.value, w) if b.value is not None else None)})')
@@ -384,8 +540,9 @@ def dataclass_def(tr: Tr, cls: ast.ClassDef, w) -> tuple[str, list]:
             else:
                 fields.append(f'({cs(name)}, {copt(tr.exp(b.value, w) if b.value is not None else None)})')
         elif isinstance(b, ast.FunctionDef):
-            if b.name in ('__bool__', '__len__', '__getattr__', '__getattribute__', '__setattr__', '__init__', '__eq__'):
-                raise RecordError(f'{w}: {cls.name} defines {b.name}')
+            check_decorators(b, [], cls.name)
+            if frozen and any(isinstance(n, ast.Attribute) and isinstance(n.ctx, ast.Store) for n in ast.walk(b)):
+                raise RecordError(f'{w}: a method of the frozen dataclass {cls.name} stores to an attribute')
             methods.append(b)
         elif isinstance(b, ast.Pass) or (isinstance(b, ast.Expr) and isinstance(b.value, ast.Constant)):
             continue
@@ -394,28 +551,35 @@ def dataclass_def(tr: Tr, cls: ast.ClassDef, w) -> tuple[str, list]:
     return f'(mkClass {cs(cls.name)} {cl(fields)} {cl(initvars)} {cl(noinit)})', methods
 
 
-def method_def(tr: Tr, cls: str, fn, w, drop_ts_only=False) -> str | None:
-    if fn.args.vararg or fn.args.kwarg or fn.args.kwonlyargs or fn.args.posonlyargs or fn.args.defaults:
-        raise RecordError(f'{w}: {cls}.{fn.name}: argument list')
+def method_def(tr: Tr, cls: str, fn, w) -> str:
+    if fn.args.vararg or fn.args.kwarg or fn.args.kwonlyargs or fn.args.posonlyargs or fn.args.defaults or fn.args.kw_defaults:
+        raise RecordError(f'{w}: {cls}.{fn.name}: argument list (defaults, *args, keyword-only)')
     args = [a.arg for a in fn.args.args]
     if not args or args[0] != 'self':
         raise RecordError(f'{w}: {cls}.{fn.name}: first argument is not self')
-    body = strip_doc(fn.body)
-    if drop_ts_only:
-        # a __post_init__ that only checks time stamps
-        kept = []
-        for st in body:
-            ids = idents(st)
-            if not has_control(st) and (ids & TS_FIELDS) and not (ids & tr.methods):
-                continue
-            kept.append(st)
-        if not kept:
-            return None
-        body = kept
-    return f'(mkMethod {cs(cls)} {cs(fn.name)} {cl(cs(a) for a in args[1:])} {tr.body(body, f"{cls}.{fn.name}")})'
+    tr.check_locals(fn, f'{cls}.{fn.name}')
+    return f'(mkMethod {cs(cls)} {cs(fn.name)} {cl(cs(a) for a in args[1:])} {tr.body(strip_doc(fn.body), f"{cls}.{fn.name}")})'
+
+
+def func_def(tr: Tr, fn, w) -> str:
+    if fn.args.vararg or fn.args.kwarg or fn.args.kwonlyargs or fn.args.posonlyargs or fn.args.defaults or fn.args.kw_defaults:
+        raise RecordError(f'{w}: {fn.name}: argument list (defaults, *args, keyword-only)')
+    check_decorators(fn, [], w)
+    tr.check_locals(fn, fn.name)
+    return f'(mkFunc {cs(fn.name)} {cl(cs(a.arg) for a in fn.args.args)} {tr.body(strip_doc(fn.body), fn.name)})'
 
 
 # ------------------------------------------------------------------ RunSession.run
+
+# the statements of RunSession.run this translation does not interpret (a PIN of their text; callback_skeleton pins them too)
+UNTRACKED_SESSION = {
+    "mp_context = mp.get_context('spawn')",
+    'queue_in = cast(QueueIn, mp_context.Queue())',
+    'queue_out = cast(QueueOut, mp_context.Queue())',
+    'context.send_command = SendCommand(queue_in)',
+    'context.open_prompts.clear()',
+}
+
 
 def session_segments(tr: Tr, run, w) -> list[str]:
     def data(st) -> bool:
@@ -440,6 +604,8 @@ def session_segments(tr: Tr, run, w) -> list[str]:
             raise RecordError(f'{at(w, st)}: await / control transfer before the relay is entered')
         if data(st):
             pre.append(tr.stmt(st, w))
+        elif norm(st) not in UNTRACKED_SESSION:
+            raise RecordError(f'{at(w, st)}: statement `{norm(st)}` before the relay is entered is neither tracked nor one of the pinned ones')
     out.append(seg('PInitSession', 'Reached', [x for x in pre if x]))
     inner = aw.body
     if len(inner) != 3 or not isinstance(inner[2], ast.Try):
@@ -465,8 +631,8 @@ def session_segments(tr: Tr, run, w) -> list[str]:
             raise RecordError(f'{at(w, st)}: await / control transfer after the process has been awaited')
         if data(st):
             rest.append(tr.stmt(st, w))
-        elif not is_logging(st) and idents(st) & {'context'}:
-            raise RecordError(f'{at(w, st)}: statement on the context after the process has been awaited: `{norm(st)}`')
+        else:
+            raise RecordError(f'{at(w, st)}: untracked statement after the process has been awaited: `{norm(st)}`')
     out.append(seg('PSetExited', 'Reached', [x for x in rest if x]))
     post = body[i + 1:]
     if len(post) != 1:
@@ -631,6 +797,110 @@ def translate(repo: Path) -> str:
     c_nl = find(t_main.body, ast.ClassDef, 'Nextline', SRC_MAIN)
     c_cb = find(t_cb.body, ast.ClassDef, 'Callback', SRC_CALLBACK)
 
+    # ---- module level: nothing rebinds or monkeypatches; the names relied upon come from where they should
+    t_utc = parse(repo, SRC_UTC)
+    t_utils = parse(repo, SRC_UTILS)
+    t_spw = parse(repo, SRC_SPAWNED)
+    check_module(t_info, SRC_RUN_INFO, {'dataclasses': ('', 'dataclasses'), 'timezone': ('datetime', 'timezone'),
+                                        'OnEndRun': ('nextline.events', 'OnEndRun'), 'OnStartRun': ('nextline.events', 'OnStartRun'),
+                                        'hookimpl': ('nextline.plugin.spec', 'hookimpl'), 'RunInfo': ('nextline.types', 'RunInfo')})
+    check_module(t_sess, SRC_SESSION, {'json': ('', 'json'), 'events': ('nextline', 'events'), 'spawned': ('nextline', 'spawned'),
+                                       'hookimpl': ('nextline.plugin.spec', 'hookimpl'), 'RunResult': ('nextline.spawned', 'RunResult'),
+                                       'run_in_process': ('nextline.utils', 'run_in_process'), 'partial': ('functools', 'partial'),
+                                       'contextlib': ('', 'contextlib'), 'getLogger': ('logging', 'getLogger'), 'asyncio': ('', 'asyncio')})
+    check_module(t_run, SRC_RUN, {'datetime': ('datetime', 'datetime'), 'timezone': ('datetime', 'timezone'),
+                                  'getLogger': ('logging', 'getLogger'), 'dataclass': ('dataclasses', 'dataclass')},
+                 own_dicts=('_exitcode_to_name',))
+    check_module(t_sty, SRC_SPAWNED_TYPES, {'json': ('', 'json'), 'traceback': ('', 'traceback'), 'dataclass': ('dataclasses', 'dataclass'),
+                                            'field': ('dataclasses', 'field'), 'InitVar': ('dataclasses', 'InitVar')})
+    check_module(t_ty, SRC_TYPES, {'dataclasses': ('', 'dataclasses')})
+    check_module(t_ev, SRC_EVENTS, {'dataclass': ('dataclasses', 'dataclass'), 'is_timezone_aware': ('nextline.utils', 'is_timezone_aware')})
+    check_module(t_cb, SRC_CALLBACK, {'asyncio': ('', 'asyncio'), 'getLogger': ('logging', 'getLogger')})
+    check_module(t_utc, SRC_UTC, {'datetime': ('datetime', 'datetime'), 'timezone': ('datetime', 'timezone')})
+    if imports_of(t_utils).get('is_timezone_aware') != ('.utc', 'is_timezone_aware') \
+            or imports_of(t_utils).get('run_in_process') != ('.run', 'run_in_process') \
+            or imports_of(t_utils).get('RunningProcess') != ('.run', 'RunningProcess') \
+            or imports_of(t_utils).get('ExitedProcess') != ('.run', 'ExitedProcess'):
+        raise RecordError(f'{SRC_UTILS}: is_timezone_aware / run_in_process / RunningProcess / ExitedProcess re-exported from elsewhere')
+    if imports_of(t_spw).get('RunResult') != ('.types', 'RunResult'):
+        raise RecordError(f'{SRC_SPAWNED}: RunResult re-exported from elsewhere')
+    for t, rel, names in ((t_utils, SRC_UTILS, ('is_timezone_aware', 'run_in_process', 'RunningProcess', 'ExitedProcess')),
+                          (t_spw, SRC_SPAWNED, ('RunResult',)), (t_imp, SRC_IMP, ()), (t_main, SRC_MAIN, ())):
+        for st in t.body:
+            for n in ([st] if not isinstance(st, (ast.ClassDef, ast.FunctionDef, ast.AsyncFunctionDef)) else []):
+                for x in ast.walk(n):
+                    if isinstance(x, (ast.Attribute, ast.Subscript)) and isinstance(getattr(x, 'ctx', None), (ast.Store, ast.Del)):
+                        raise RecordError(f'{rel}:{st.lineno}: module-level store to `{norm(x)}`')
+                    if isinstance(x, ast.Name) and isinstance(x.ctx, ast.Store) and x.id in names + ('Imp', 'Nextline'):
+                        raise RecordError(f'{rel}:{st.lineno}: module-level rebinding of `{x.id}`')
+                    if isinstance(x, ast.Call) and isinstance(x.func, ast.Name) and x.func.id in ('setattr', 'delattr'):
+                        raise RecordError(f'{rel}:{st.lineno}: module-level {x.func.id}')
+    # is_timezone_aware: a PIN of its one-line body (the interpreter's [EIsAware] is its meaning on times made by this code)
+    f_aware = find(t_utc.body, ast.FunctionDef, 'is_timezone_aware', SRC_UTC)
+    check_decorators(f_aware, [], SRC_UTC)
+    if [norm(x) for x in strip_doc(f_aware.body)] != ['return (dt.tzinfo and dt.tzinfo.utcoffset(dt)) is not None'] \
+            or [a.arg for a in f_aware.args.args] != ['dt'] or f_aware.args.defaults:
+        raise RecordError(f'{SRC_UTC}: is_timezone_aware is not `return (dt.tzinfo and dt.tzinfo.utcoffset(dt)) is not None`')
+
+    # ---- classes: bases, decorators, class-level statements, special methods
+    DC = [['dataclass'], ['dataclasses.dataclass'], ['dataclasses.dataclass(frozen=True)'], ['dataclass(frozen=True)']]
+    check_class(c_result, [], DC, special_ok=(), allow_init=False)
+    check_class(c_runarg, [], DC, allow_init=False)
+    check_class(c_info, [], DC, allow_init=False)
+    check_class(c_start, ['Event'], DC, allow_init=False)
+    check_class(c_end, ['Event'], DC, allow_init=False)
+    c_event = find(t_ev.body, ast.ClassDef, 'Event', SRC_EVENTS)
+    check_class(c_event, [], DC, allow_init=False)
+    if any(isinstance(b, (ast.FunctionDef, ast.AsyncFunctionDef, ast.AnnAssign)) for b in c_event.body):
+        raise RecordError(f'{SRC_EVENTS}: the base class Event has members')
+    check_class(c_exited, ['Generic[_T]'], DC, allow_init=False)
+    check_class(c_running, ['Generic[_T]'], [[]])
+    check_class(c_reg, [], [[]])
+    check_class(c_res, [], [[]], allow_init=False)
+    check_class(c_sess, [], [[]], allow_init=False)
+    check_class(c_cb, [], [[]])
+    check_class(c_imp, [], [[]], special_ok=('__aenter__', '__aexit__'))
+    check_class(c_nl, [], [[]], special_ok=('__aenter__', '__aexit__'))
+    # sibling methods must not store to what the translated ones read
+    for cls, node, attrs, where_ok in (('RunningProcess', c_running, ('_task', 'process', 'process_created_at', '_process_created_at_fmt'), ('__init__',)),
+                                       ('Imp', c_imp, ('_context', '_hook'), ('__init__',)),
+                                       ('Nextline', c_nl, ('_imp',), ('__init__',)),
+                                       ('Callback', c_cb, ('_context', '_hook', '_machine'), ('__init__',))):
+        for fn in node.body:
+            if isinstance(fn, (ast.FunctionDef, ast.AsyncFunctionDef)) and fn.name not in where_ok:
+                for n in ast.walk(fn):
+                    if isinstance(n, ast.Attribute) and isinstance(n.ctx, (ast.Store, ast.Del)) and n.attr in attrs:
+                        raise RecordError(f'{cls}.{fn.name}: stores to self.{n.attr}')
+                    if isinstance(n, ast.Call) and isinstance(n.func, ast.Name) and n.func.id in ('setattr', 'delattr'):
+                        raise RecordError(f'{cls}.{fn.name}: {n.func.id}')
+    if [f.name for f in c_sess.body if isinstance(f, (ast.FunctionDef, ast.AsyncFunctionDef))] != ['run']:
+        raise RecordError('RunSession: methods other than run')
+    # Callback.__init__: plain stores of its arguments / a logger; no event, no task
+    cb_init = find(c_cb.body, ast.FunctionDef, '__init__', 'Callback')
+    for st in strip_doc(cb_init.body):
+        ok = (isinstance(st, ast.AnnAssign) and st.value is None) or (
+            isinstance(st, ast.Assign) and len(st.targets) == 1 and (attr_path(st.targets[0]) or [''])[0] == 'self'
+            and len(attr_path(st.targets[0])) == 2 and attr_path(st.targets[0])[1] not in ('_run_finished', '_task_run')
+            and (pure(st.value) or norm(st.value) == 'getLogger(__name__)'))
+        if not ok:
+            raise RecordError(f'Callback.__init__:{st.lineno}: `{norm(st)}`')
+    # nobody else stores to the tracked attributes of the context
+    for p in sorted((repo / 'nextline').rglob('*.py')):
+        rel = str(p.relative_to(repo))
+        tree = ast.parse(p.read_text())
+        for top in ast.walk(tree):
+            if isinstance(top, (ast.FunctionDef, ast.AsyncFunctionDef, ast.Module)):
+                pass
+        allowed = {SRC_CALLBACK: ('initialize_run', '_finish'), SRC_SESSION: ('run',)}
+        for fn in [n for n in ast.walk(tree) if isinstance(n, (ast.FunctionDef, ast.AsyncFunctionDef))]:
+            for n in ast.walk(fn):
+                if isinstance(n, ast.Attribute) and isinstance(n.ctx, (ast.Store, ast.Del)) and n.attr in TRACKED_CTX \
+                        and fn.name not in allowed.get(rel, ()):
+                    raise RecordError(f'{rel}:{n.lineno}: {fn.name} stores to .{n.attr}')
+                if isinstance(n, ast.Attribute) and isinstance(n.ctx, ast.Store) and n.attr == 'returned' \
+                        and not (rel == SRC_SESSION and fn.name == 'run'):
+                    raise RecordError(f'{rel}:{n.lineno}: {fn.name} stores to .returned')
+
     # module-level dicts of utils/run.py: a dict display or comprehension whose values are f-strings with a constant part
     dicts, truthy = set(), []
     for st in t_run.body:
@@ -648,39 +918,42 @@ def translate(repo: Path) -> str:
             raise RecordError(f'{SRC_RUN}: the dict `{n.value.id}` is modified')
         if isinstance(n, ast.Attribute) and isinstance(n.value, ast.Name) and n.value.id in dicts and n.attr != 'get':
             raise RecordError(f'{SRC_RUN}: `{n.value.id}.{n.attr}`')
+        if isinstance(n, ast.Name) and n.id in dicts and isinstance(n.ctx, (ast.Store, ast.Del)) and n.col_offset != 0:
+            raise RecordError(f'{SRC_RUN}: the dict `{n.id}` is rebound')
+        if isinstance(n, (ast.Global, ast.Nonlocal)) and set(n.names) & dicts:
+            raise RecordError(f'{SRC_RUN}: `global` on a tracked dict')
 
     dataclasses = [c_result, c_runarg, c_info, c_start, c_end, c_exited]
-    class_names = {c.name for c in dataclasses} | {'RunInfoRegistrar', 'Result'}
+    class_names = {c.name for c in dataclasses} | {'RunInfoRegistrar', 'Result', 'RunningProcess'}
     traced_methods = {
         'RunResult': [f.name for f in c_result.body if isinstance(f, ast.FunctionDef)],
-        'RunningProcess': ['__await__', '_log_exited', '_format_time'],
+        'RunningProcess': ['__init__', '_log_created', '__await__', '_log_exited', '_format_time'],
     }
     method_names = {m for ms in traced_methods.values() for m in ms if not m.startswith('__')}
-    tr = Tr(class_names, method_names, dicts, {'_on_start_run', '_on_end_run'})
+    tr = Tr(class_names, method_names, dicts, {'_on_start_run', '_on_end_run'}, {'_assert_aware_datetime'})
 
     classes, methods = [], []
     for c in dataclasses:
         d, ms = dataclass_def(tr, c, f'{c.name}')
         classes.append(d)
         for fn in ms:
-            m = method_def(tr, c.name, fn, c.name, drop_ts_only=(fn.name == '__post_init__' and c.name != 'RunResult'))
-            if m is not None:
-                methods.append(m)
-    # RunningProcess: the three methods executed by `await handle`
+            methods.append(method_def(tr, c.name, fn, c.name))
+    # RunningProcess: construction and what `await handle` executes
     for nm in traced_methods['RunningProcess']:
-        methods.append(method_def(tr, 'RunningProcess', find(c_running.body, ast.FunctionDef, nm, 'RunningProcess'), 'RunningProcess'))
+        fn = find(c_running.body, ast.FunctionDef, nm, 'RunningProcess')
+        check_decorators(fn, [], 'RunningProcess')
+        methods.append(method_def(tr, 'RunningProcess', fn, 'RunningProcess'))
     # RunInfoRegistrar: __init__ and the hook implementations
     hooks = []
     for fn in c_reg.body:
         if isinstance(fn, (ast.FunctionDef, ast.AsyncFunctionDef)):
             if fn.name == '__init__' or is_hookimpl(fn):
+                check_decorators(fn, [] if fn.name == '__init__' else ['hookimpl'], 'RunInfoRegistrar')
                 methods.append(method_def(tr, 'RunInfoRegistrar', fn, 'RunInfoRegistrar'))
                 if fn.name != '__init__':
                     hooks.append(fn.name)
             else:
                 raise RecordError(f'RunInfoRegistrar.{fn.name}: a method that is neither __init__ nor a hook implementation')
-        elif not (isinstance(fn, ast.Expr) and isinstance(fn.value, ast.Constant)) and not isinstance(fn, ast.Pass):
-            raise RecordError(f'RunInfoRegistrar: member `{norm(fn).splitlines()[0]}`')
     for fn in c_reg.body:
         if isinstance(fn, (ast.FunctionDef, ast.AsyncFunctionDef)) and fn.name != '__init__':
             for n in ast.walk(fn):
@@ -692,15 +965,17 @@ def translate(repo: Path) -> str:
     # Result: the two firstresult hooks
     for fn in c_res.body:
         if isinstance(fn, (ast.FunctionDef, ast.AsyncFunctionDef)):
-            if not is_hookimpl(fn) or fn.name not in API:
-                raise RecordError(f'Result.{fn.name}: not one of the hooks {API}')
+            if not is_plain_hookimpl(fn) or fn.name not in API:
+                raise RecordError(f'Result.{fn.name}: not a plain @hookimpl of one of the hooks {API}')
             methods.append(method_def(tr, 'Result', fn, 'Result'))
     if sorted(f.name for f in c_res.body if isinstance(f, ast.FunctionDef)) != sorted(API):
         raise RecordError('Result: expected exactly format_exception and result')
     # Imp / Nextline plumbing
     for cls, node in (('Imp', c_imp), ('Nextline', c_nl)):
         for nm in API:
-            methods.append(method_def(tr, cls, find(node.body, ast.FunctionDef, nm, cls), cls))
+            fn = find(node.body, ast.FunctionDef, nm, cls)
+            check_decorators(fn, [], cls)
+            methods.append(method_def(tr, cls, fn, cls))
     fr = first_result(repo)
     if sorted(fr) != sorted(API):
         raise RecordError(f'{SRC_SPEC}: format_exception / result must be hookspec(firstresult=True); found {fr}')
@@ -711,19 +986,25 @@ def translate(repo: Path) -> str:
 
     funcs = []
     for nm in ('_on_start_run', '_on_end_run'):
-        fn = find(t_sess.body, ast.AsyncFunctionDef, nm, SRC_SESSION)
-        if fn.args.vararg or fn.args.kwarg or fn.args.kwonlyargs or fn.args.defaults:
-            raise RecordError(f'{nm}: argument list')
-        funcs.append(f'(mkFunc {cs(nm)} {cl(cs(a.arg) for a in fn.args.args)} {tr.body(strip_doc(fn.body), nm)})')
+        funcs.append(func_def(tr, find(t_sess.body, ast.AsyncFunctionDef, nm, SRC_SESSION), SRC_SESSION))
+    funcs.append(func_def(tr, find(t_ev.body, ast.FunctionDef, '_assert_aware_datetime', SRC_EVENTS), SRC_EVENTS))
 
     run = find(c_sess.body, ast.AsyncFunctionDef, 'run', 'RunSession')
     if [norm(d) for d in run.decorator_list] != ['hookimpl', 'contextlib.asynccontextmanager']:
         raise RecordError('RunSession.run: decorators')
+    if [a.arg for a in run.args.args] != ['self', 'context'] or run.args.defaults or run.args.vararg or run.args.kwarg or run.args.kwonlyargs:
+        raise RecordError('RunSession.run: arguments')
+    tr.check_locals(run, 'RunSession.run')
     session = session_segments(tr, run, 'RunSession.run')
 
     cb = []
     for fn in c_cb.body:
         if isinstance(fn, (ast.FunctionDef, ast.AsyncFunctionDef)) and fn.name != '__init__':
+            check_decorators(fn, [], 'Callback')
+            if fn.args.defaults or fn.args.vararg or fn.args.kwarg or fn.args.kwonlyargs:
+                raise RecordError(f'Callback.{fn.name}: argument list')
+            if local_bindings(fn) & {'asyncio', 'self'} - {'self'}:
+                raise RecordError(f'Callback.{fn.name}: rebinds asyncio')
             cb.append(f'({cs(fn.name)}, {cb_body(fn.body, "Callback." + fn.name)})')
 
     nl = '\n'
@@ -737,15 +1018,15 @@ def translate(repo: Path) -> str:
         'Import ListNotations.',
         'Local Open Scope string_scope.',
         '',
-        '(** dataclasses (time stamps dropped) *)',
+        '(** dataclasses: fields with their defaults *)',
         'Definition classes : list classdef :=',
         '  [ ' + (';' + nl + '    ').join(classes) + ' ].',
         '',
-        '(** methods: RunResult, RunningProcess.__await__/_log_exited/_format_time, RunInfoRegistrar, Result, Imp, Nextline *)',
+        '(** methods: dataclasses, RunningProcess (__init__, _log_created, __await__, _log_exited, _format_time), RunInfoRegistrar, Result, Imp, Nextline *)',
         'Definition methods : list method :=',
         '  [ ' + (';' + nl + '    ').join(methods) + ' ].',
         '',
-        '(** _on_start_run / _on_end_run *)',
+        '(** _on_start_run / _on_end_run (session.py), _assert_aware_datetime (events.py) *)',
         'Definition funcs : list func :=',
         '  [ ' + (';' + nl + '    ').join(funcs) + ' ].',
         '',
